@@ -384,18 +384,21 @@ static struct rnode *rnode_atom(char **pat)
 		rnode->maxcnt = 0;
 		++*pat;
 		while (isdigit((unsigned char) **pat))
-			rnode->mincnt = rnode->mincnt * 10 + *(*pat)++ - '0';
+			if ((rnode->mincnt = rnode->mincnt * 10 + *(*pat)++ - '0') > NREPS)
+				rnode->mincnt = NREPS + 1;
 		if (**pat == ',') {
 			(*pat)++;
 			if ((*pat)[0] == '}')
 				rnode->maxcnt = -1;
 			while (isdigit((unsigned char) **pat))
-				rnode->maxcnt = rnode->maxcnt * 10 + *(*pat)++ - '0';
+				if ((rnode->maxcnt = rnode->maxcnt * 10 + *(*pat)++ - '0') > NREPS)
+					rnode->maxcnt = NREPS + 1;
 		} else {
 			rnode->maxcnt = rnode->mincnt;
 		}
 		++*pat;
-		if (rnode->mincnt > NREPS || rnode->maxcnt > NREPS) {
+		if (rnode->mincnt > NREPS || rnode->maxcnt > NREPS ||
+				(rnode->maxcnt >= 0 && rnode->maxcnt < rnode->mincnt)) {
 			rnode_free(rnode);
 			return NULL;
 		}
